@@ -39,8 +39,8 @@ def obligations(tier):
            encodes=['recognizers_number_with_unit.number_with_unit.extractors:NumberWithUnitExtractor.extract']),
         Ob('O1.6-merge_all_tokens', 'sx', S + 'h_merge_all_tokens', slices=[{'src': 'abcdef', 'nt': 2}, {'src': 'abcde', 'nt': 3}], timeout=t,
            descr='merge_all_tokens: result spans/text are those of a token', encodes=['recognizers_date_time.date_time.utilities:merge_all_tokens']),
-        Ob('O1.8-model-assemble', 'sx', S + 'h_model_assemble', slices=[{'src': 'abcdefgh', 'model': m} for m in MODELS], timeout=t,
-           descr='each Model.parse derives end = start + length - 1 and keeps text for well-formed parse results',
+        Ob('O1.8-model-assemble', 'sx', S + 'h_model_assemble', slices=[{'src': 'ab cd ef', 'model': m} for m in MODELS], timeout=t,
+           descr='each Model.parse derives end = start + length - 1 (from the span, also when the extractor hands over the trimmed text of an untrimmed span) and keeps the text',
            bounds='two symbolic results in a text of length 8, per model class',
            encodes=['recognizers_number.number.models:AbstractNumberModel.parse', 'recognizers_number_with_unit.number_with_unit.models:AbstractNumberWithUnitModel.parse',
                     'recognizers_sequence.sequence.models:AbstractSequenceModel.parse', 'recognizers_date_time.date_time.models:DateTimeModel.parse',
